@@ -465,3 +465,60 @@ Proof.
   destruct (ehc_stitched _ _ _ _ _ _ _ Hdu) as (offs & Hs & _); [congruence|].
   split; [exact Hl|]. split; [exact Hh|]. exists offs. exact Hs.
 Qed.
+
+(** * tryRepeatedly (ToByteSlice, ReadAt, CloneCopy): whole-operation retries *)
+Section Retry.
+  Variable H : bytes -> bytes.
+  Variable cfg : vcfg.
+  Variable fuel : nat.
+
+  Definition op_done (e : err) : bool := match e with ENone | EEof => true | _ => false end.
+
+  (** [retried m b answers d e offered]: the operation [m] is applied to [b];
+      if it succeeds that is the result; otherwise its error is offered to the
+      handler, whose error answer is the result, or whose replacement buffer
+      is tried in the same way. *)
+  Inductive retried (m : meth) : bufscript -> list answer -> bytes -> err -> list err -> Prop :=
+  | rt_ok b ans :
+      op_done (o_err (plain H cfg fuel b m)) = true ->
+      retried m b ans (o_data (plain H cfg fuel b m)) (o_err (plain H cfg fuel b m)) []
+  | rt_fail b ans c :
+      op_done (o_err (plain H cfg fuel b m)) = false ->
+      fst (on_error (mkHst ans []) (o_err (plain H cfg fuel b m))) = Fail c ->
+      retried m b ans [] (ECode c) [o_err (plain H cfg fuel b m)]
+  | rt_replace b b' rest d e offs :
+      op_done (o_err (plain H cfg fuel b m)) = false ->
+      retried m b' rest d e offs ->
+      retried m b (Replace b' :: rest) d e (o_err (plain H cfg fuel b m) :: offs).
+
+  Theorem try_repeatedly_spec : forall n m b h cbs d e cbs' h',
+    try_repeatedly H cfg fuel n m b h cbs = (d, e, cbs', h') ->
+    (length (h_answers h) < n)%nat ->
+    exists offs, retried m b (h_answers h) d e offs /\
+                 h_log h' = h_log h ++ map HOnError offs ++ [HDone].
+  Proof.
+    induction n as [|n IH]; intros m b h cbs d e cbs' h' Ht Hl; [lia|].
+    cbn [try_repeatedly] in Ht.
+    destruct (op_done (o_err (plain H cfg fuel b m))) eqn:Hop.
+    - assert (Hx : (o_data (plain H cfg fuel b m), o_err (plain H cfg fuel b m),
+                    cbs ++ o_cbs (plain H cfg fuel b m), done h) = (d, e, cbs', h'))
+        by (destruct (o_err (plain H cfg fuel b m)); try discriminate; exact Ht).
+      inv Hx. exists []. split; [apply rt_ok; exact Hop|reflexivity].
+    - assert (Hx : (let '(a, h1) := on_error h (o_err (plain H cfg fuel b m)) in
+                    match a with
+                    | Fail c => ([], ECode c, cbs ++ o_cbs (plain H cfg fuel b m), done h1)
+                    | Replace b' => try_repeatedly H cfg fuel n m b' h1 (cbs ++ o_cbs (plain H cfg fuel b m))
+                    end) = (d, e, cbs', h'))
+        by (destruct (o_err (plain H cfg fuel b m)); try discriminate; exact Ht).
+      clear Ht. set (t := o_err (plain H cfg fuel b m)) in *.
+      pose proof (on_error_log h t) as Hlog. pose proof (on_error_answer h t) as Hans.
+      destruct (on_error h t) as [a h1] eqn:Ho. cbn [fst snd] in *.
+      destruct a as [b'|c].
+      + pose proof (on_error_len_replace _ _ _ _ Ho) as Hlen.
+        destruct (IH _ _ _ _ _ _ _ _ Hx ltac:(lia)) as (offs & Hr & Hl').
+        exists (t :: offs). rewrite (on_error_replace _ _ _ _ Ho). split; [apply rt_replace; assumption|].
+        rewrite Hl', Hlog. cbn [map app]. rewrite <- !app_assoc. reflexivity.
+      + inv Hx. exists [t]. split; [apply rt_fail; [exact Hop|symmetry; exact Hans]|].
+        cbn [done h_log map app]. rewrite Hlog, <- app_assoc. reflexivity.
+  Qed.
+End Retry.
